@@ -400,6 +400,7 @@ type hwDoc struct {
 	On     hwBool
 	Labels []hwLabel
 	Name   string
+	name   string // an unexported twin of Name (a lookup that ignores the case of the first letter finds two fields, hence none)
 	_x     int
 	lower  string
 	Ünï    string
@@ -548,7 +549,28 @@ func predCLI(c Case) (r Result) {
 	var stdout, stderr bytes.Buffer
 	cmd.Stdout, cmd.Stderr = &stdout, &stderr
 	var err error
-	if c.Extra["chunked"] == true && channel == "stdin" && len(stdin) >= 2 {
+	if c.Extra["stdin_file_offset"] == true && channel == "stdin" {
+		// standard input is a regular file that the parent has read a header from already
+		// (`{ read hdr; jpgo expr; } < file`): what remains to be read is not what stat() says
+		dir := os.Getenv("VERIF_WORK")
+		if dir == "" {
+			dir = os.TempDir()
+		}
+		f, ferr := os.CreateTemp(dir, "jpgo-stdin-*.json")
+		if ferr != nil {
+			r.Discard = "HARNESS:tempfile"
+			r.Violation = ferr.Error()
+			return
+		}
+		defer os.Remove(f.Name())
+		header := "# header line that was consumed before jpgo started\n"
+		f.WriteString(header)
+		f.Write(stdin)
+		f.Seek(int64(len(header)), 0)
+		cmd.Stdin = f
+		err = cmd.Run()
+		f.Close()
+	} else if c.Extra["chunked"] == true && channel == "stdin" && len(stdin) >= 2 {
 		// standard input arrives the way a producer on the other end of a pipe writes it: in
 		// pieces, with pauses (end of input is the closing of the pipe, not the first short read)
 		w, perr := cmd.StdinPipe()
@@ -844,8 +866,13 @@ func TestC19(t *testing.T) {
 		channel := []string{"stdin", "file"}[rapid.IntRange(0, 1).Draw(t, "channel")]
 		c := withExpr(Case{Property: "C19", Kind: "cli"}, expr)
 		c.Extra = map[string]interface{}{"input": input, "channel": channel, "dashdash": rapid.Bool().Draw(t, "dashdash")}
-		if channel == "stdin" && uni(t, 12, "chunked") == 0 {
-			c.Extra["chunked"] = true
+		if channel == "stdin" {
+			switch uni(t, 12, "stdinKind") {
+			case 0:
+				c.Extra["chunked"] = true
+			case 1:
+				c.Extra["stdin_file_offset"] = true
+			}
 		}
 		if !isValidUTF8(input) {
 			c.Extra["input"] = ""
